@@ -240,6 +240,7 @@ func c18RoundTrip(u *U, gc goCase, g interface{}) {
 		u.Violation("gocty.in-fails", shape, fmt.Sprintf("ToCtyValue(%s, %#v) failed: %v %s", desc, ty, err, firstLineOf(pan)))
 		return
 	}
+	checkRetainedValue(u, "gocty.in", v, desc)
 	if why := wf(v); why != "" {
 		u.Violation("gocty.in-malformed", shape, fmt.Sprintf("ToCtyValue(%s) = %s is malformed: %s", desc, goStr(v), why))
 		return
